@@ -92,7 +92,12 @@ func startServer(file string, cache bool, preload bool) *server {
 			time.Sleep(50 * time.Millisecond)
 		}
 		if ok {
-			return s
+			// the answer must come from OUR process: if another program grabbed the port first, our server has
+			// exited with "failed to listen" and somebody else answered the probe
+			time.Sleep(150 * time.Millisecond)
+			if s.alive() {
+				return s
+			}
 		}
 		s.stop()
 	}
@@ -120,7 +125,7 @@ func (s *server) stop() {
 }
 
 func (s *server) query(req *proto.QueryRequest) (string, bool) {
-	ctx, cancel := context.WithTimeout(context.Background(), 20*time.Second)
+	ctx, cancel := context.WithTimeout(context.Background(), 20*time.Second*watchdogScale)
 	defer cancel()
 	resp, err := s.cl.Query(ctx, req)
 	if err != nil {
